@@ -191,6 +191,7 @@ def kepler_uf_stub(dom):
         return None
     return stub
 
+R3_EXTRA = ['eos', 'janus', 'whfast_var']        # continuation only (C17 uses R3_CFGS for its own stepping twin)
 R3_CFGS = ['leapfrog', 'whfast', 'whfast_unsync', 'whfast_dh_kernel', 'saba', 'none', 'sei']
 
 def run_r3(u):
@@ -287,7 +288,7 @@ def main():
     cfgs = [c for c in P.CONFIGS if not P.CONFIGS[c].get('var')]
     us = [dict(cfg=c, n=2) for c in cfgs]
     if tier == 'thorough': us += [dict(cfg=c, n=3) for c in cfgs]
-    us += [dict(cfg=c, n=2, mode='r3', steps=1) for c in R3_CFGS]
+    us += [dict(cfg=c, n=2, mode='r3', steps=1) for c in R3_CFGS + R3_EXTRA]
     if tier == 'thorough': us += [dict(cfg=c, n=3, mode='r3', steps=2) for c in R3_CFGS]
     us += [dict(cfg=c, n=3, mode='twin') for c in cfgs]
     # derived state that is not persisted: a restored simulation that needs the tree must come back with one (unit shared with C17)
